@@ -1200,20 +1200,29 @@ def hx(b):
 
 def generate(rng, tier, stats):
     n = 6000 if tier == "quick" else 120000
-    stats["cases"] = n
+    stats["generated"] = n
     for _ in range(n):
         items = g_sentence(rng, stats)
         text = render(rng, items, stats)
         if b"\0" in text:
             continue
+        # the property quantifies over sentences: a text the reference reader does not accept (two constructs
+        # that happen to combine into something the manual forbids or leaves open, e.g. a scalar in front of a
+        # range that makes its step point away from the end) is not run; rejected / near-valid texts on which
+        # the model is defined are in corpus/C11.ops
         ref = read_text(text)
-        stats["in_grammar"] = stats.get("in_grammar", 0) + (ref is not None)
-        if ref is not None:
-            nv = len(flat(ref))
-            stats["cells_%02d" % min(nv, 20)] = stats.get("cells_%02d" % min(nv, 20), 0) + 1
+        if ref is None:
+            stats["not_a_sentence"] = stats.get("not_a_sentence", 0) + 1
+            continue
+        stats["sentences"] = stats.get("sentences", 0) + 1
+        nv = len(flat(ref))
+        stats["cells_%02d" % min(nv, 20)] = stats.get("cells_%02d" % min(nv, 20), 0) + 1
+        if k1_trigger(text):
+            stats["k1_octal_plain"] = stats.get("k1_octal_plain", 0) + 1
         op = hx(text)
         if rng.random() < 0.4:
             alt = render(rng, items, stats, canonical=rng.random() < 0.3)
-            op += " alt=" + hx(alt)
-            stats["pairs"] = stats.get("pairs", 0) + 1
+            if read_text(alt) is not None:
+                op += " alt=" + hx(alt)
+                stats["pairs"] = stats.get("pairs", 0) + 1
         yield op
